@@ -46,7 +46,7 @@ static void exec_seq(const Plan& pl, const RunCtl& ctl, RunOut& out) {
   out.leaked = rt_alloc_stats().live_blocks - live0; out.peak = rt_alloc_stats().peak_bytes; out.maxreq = rt_alloc_stats().max_request;
   out.fault_fired = t->fault_fired; out.fault_guard = t->fault_guard; out.nothrow_failed = t->nothrow_failed;
   t->fault_op = -1; t->nothrow_fail_all = false; t->budget = ~0ull; t->step_limit = ~0ull;
-  if (out.fault_fired) rt_arena_expect_leaks();
+  if (out.fault_fired) rt_arena_expect_leaks(); else rt_arena_preserve_live();
   rt_env_release();
 }
 
@@ -323,7 +323,7 @@ static bool case_c14(const Plan& pl0, Stats& st, Violation& v) {
     std::vector<SchedSeg> log(4096); size_t nlog = 0; SchedResult sr;
     rt_run_tasks(pl.ntasks, task_fn, &ta, chooser, &cc, 100000000ull, log.data(), log.size(), &nlog, &sr, ctxs.data(), prep_fn, &pc);
     work_shared_destroy(ws);
-    if (ft.op >= 0) rt_arena_expect_leaks();
+    if (ft.op >= 0) rt_arena_expect_leaks(); else rt_arena_preserve_live();
     rt_env_release();
     ++st.evals; st.switches += sr.switches; st.lib_preempt += sr.lib_preemptions; st.static_checks += cc.static_checks; st.colocated += cc.colocated;
     uint64_t h = 1469598103934665603ull; uint64_t steps = 0;
